@@ -167,3 +167,29 @@ Theorem C01_ptr_prims : forall s h, CmapOk s -> Rep h (ll s) ->
   (forall k s', ll_remove_all s k = Ok s' -> exists ops h', h_run h ops = Ok h' /\ Rep h' (ll s')).
 Proof. exact prims_on_heap. Qed.
 Print Assumptions C01_ptr_prims.
+
+(* ---- the pointer-level MODEL (Model/C01_PModel.v: all public methods over the heap of PREV/NEXT
+   cells; this is the model closest to the code, and it is run against the code in `agree`) ------- *)
+From Boltons Require Import Model.C01_PModel Proofs.C01_PSimDefs Proofs.C01_PSim3 Proofs.C01_PMain.
+
+(* for ALL histories (no well-formedness needed) it computes exactly what the list-level model does:
+   no dangling pointer, no exhausted fuel, same results, same views *)
+Theorem C01_ptr_model_equiv : forall ops,
+  pm_run (pm_empty, pm_empty) ops = m_run (m_empty, m_empty) ops.
+Proof. exact ptr_history. Qed.
+Print Assumptions C01_ptr_model_equiv.
+
+(* hence the pointer-level model refines the plain pair list, for all histories, after every prefix *)
+Theorem C01_ptr_history : forall ops, wf_history ops ->
+  pm_run (pm_empty, pm_empty) ops = spec_run ([], []) ops.
+Proof. exact ptr_history_spec. Qed.
+Print Assumptions C01_ptr_history.
+
+(* one operation, from any well-formed heaps *)
+Theorem C01_ptr_op : forall p q op_, Good p -> Good q ->
+  rel_op (pm_op p q op_) (m_op (lift p) (lift q) op_).
+Proof. exact sim_op. Qed.
+Print Assumptions C01_ptr_op.
+
+Example ex_ptr_history : pm_run (pm_empty, pm_empty) ex_ops = spec_run ([], []) ex_ops.
+Proof. vm_compute. reflexivity. Qed.
